@@ -371,6 +371,10 @@ def run(chk):
         chk.require(ok, "R2", "gaussian32(message, sigma) = message + dtot32(N(0, sigma)) drawn from the process generator", where=g.where,
                     ok="normal_distribution(0, sigma)(generator); return message + dtot32(err)", bad=[summ.show_piece(p)[:100] for p in gps], variant=vn)
         check_ks_noise(chk, v)
+        # a fresh LWE ciphertext carries exactly the configured noise only if the mask terms cancel in the phase: C03.R1's decision
+        # for both encryption functions, re-evaluated here
+        from rules import c03 as _c03, c04 as _c04
+        _c03.check_lwe_encrypt(_c04._Sub(chk, "R2"), v, 1, "R2")
         en = v.fn("lweSymEncryptWithExternalNoise")
         eps, _ = summ.pieces(v, en, hooks=NOINLINE)
         eps = summ.fold_accumulators(eps)
